@@ -111,6 +111,11 @@ def draw_cfg(rng, prop: str, tier: str, overrides=None) -> dict:
         flav.append("u")  # native dicts keyed by the id callback
     if primary == "fs":
         flav = ["f"]  # the FileSystemTree mappers only know FileSystemEntry data
+    elif primary in ("plain", "typed", "hook", "thook") and rng.random() < 0.04:
+        # swarm member: a tree of DictWrapper objects only (what build_random_tree
+        # produces), saved / loaded with the mapper pair the library ships
+        flav = ["w"]
+        cfg["dictwrapper_run"] = True
     cfg["flavours"] = flav
     cfg["ids"] = rng.sample(IDS, rng.choice([0, 2, 3, 4]))
     if cfg["ids"] and rng.random() < 0.2:
@@ -215,6 +220,8 @@ def _keys_of_flavour(f, cfg):
     if f == "d":
         return ["d:1#0", "d:1#1", "d:2#0"]
     if f == "w":
+        if cfg.get("dictwrapper_run"):
+            return [f"w:{k}" for k in range(1, 9)]
         return ["w:1", "w:2", "w:3"]
     if f == "o":
         return ["o:1", "o:2", "o:3"]
@@ -750,6 +757,8 @@ def gen_restart(rng, cfg, w: World, opid, invalid, steer):
     op["via"] = via
     op["mapper_style"] = rng.choice(["inplace_ret", "inplace_none", "new", "new_bare",
                                      "new_data"])
+    if cfg.get("dictwrapper_run") and rng.random() < 0.7:
+        op["mapper_style"] = "shipped"
     if rng.random() < 0.3:
         op["deser_style"] = "consume"
     if via == "dict":
